@@ -244,8 +244,8 @@ struct Obs {
     /// source block length carried by the FEC payload ID (FEC ID 129)
     sbl: Option<u32>,
     /// FNV-64 of the whole datagram / of what precedes the payload (LCT header, extensions, FEC payload ID)
-    dfull: u64,
-    dhead: u64,
+    /// TOI, codepoint and EXT_FTI fields as the independent RFC decoder reads them
+    hdr: String,
 }
 
 struct Sess {
@@ -607,10 +607,12 @@ impl BencEngine {
                 continue;
             }
             RAW.lock().unwrap().push(fnv64(&d));
-            let ob = Obs { sbn: dec.sbn, esi: dec.esi, payload: dec.payload, a: dec.close_session, b: dec.close_object, after_remove: s.removed, sbl: dec.sbl, dfull: 0, dhead: 0 };
-            let mut ob = ob;
-            ob.dfull = fnv64(&d);
-            ob.dhead = fnv64(&d[..d.len() - ob.payload.len()]);
+            let fti = match &dec.fti {
+                Some(v) => v.iter().map(|x| x.to_string()).collect::<Vec<_>>().join(":"),
+                None => "-".to_string(),
+            };
+            let hdr = format!("t{}/c{}/{}", dec.toi, dec.cp, fti);
+            let ob = Obs { sbn: dec.sbn, esi: dec.esi, payload: dec.payload, a: dec.close_session, b: dec.close_object, after_remove: s.removed, sbl: dec.sbl, hdr };
             s.trace.push(ob.clone());
             return Ok(Some(ob));
         }
@@ -625,10 +627,10 @@ impl BencEngine {
             Some(v) => v.to_string(),
             None => "-".to_string(),
         };
-        // the datagram itself, compared with the model's `Alc.newAlcPkt file.oti 0 tsi (toAlc p)`: whole for source symbols,
-        // up to the payload for repair symbols
-        let dh = if (ob.esi as u64) < k { ob.dfull } else { ob.dhead };
-        format!("{},{},{},{},{},{},{},{:016x}", ob.sbn, ob.esi, len, h, sbl, ob.a as u8, ob.b as u8, dh)
+        // what an RFC decoder reads off the datagram besides the payload ID: TOI, codepoint, EXT_FTI fields - compared with
+        // the model's (TOI, FEC encoding ID, Admission's OTI + transfer length); NOT the header's byte layout (field
+        // widths, HDR_LEN, flag bits are C06's: engine wire)
+        format!("{},{},{},{},{},{},{},{}", ob.sbn, ob.esi, len, h, sbl, ob.a as u8, ob.b as u8, ob.hdr)
     }
 }
 
@@ -884,6 +886,15 @@ fn oracle(s: &Sess, o: &mut Oracle) {
         let complete_here = (0..part.n).all(|sbn| (0..part.k(sbn)).all(|esi| seen.contains_key(&(sbn as u32, esi as u32))));
         if s.fault_once && !complete_here && !cut {
             once_used_next = true;
+        }
+        if !cut && excused && !complete_here && l > 0 {
+            // OBSERVATION benc-6, not a finding and not a violation (a read() that fails is outside the quantifier of
+            // C08/C20): the transfer a failing read interrupts goes out truncated - the blocks read so far, no B
+            let nmiss = (0..part.n).map(|sbn| (0..part.k(sbn)).filter(|esi| !seen.contains_key(&(sbn as u32, *esi as u32))).count() as u64).sum::<u64>();
+            o.fail("source-fault-truncates-transfer", &format!(
+                "transfer {} ends after {} packets with {} source symbols never sent, B on its last packet: {} {}",
+                ti, t.len(), nmiss, t.last().map(|(_, p)| p.b).unwrap_or(false), ctxs
+            ));
         }
         if !cut && (!excused || complete_here) {
             // every source symbol exactly once
